@@ -397,7 +397,7 @@ func (f *p2pFam) Gen(r *hx.Run) {
 		r.Nontrivial(fmt.Sprintf("headers-count/%d/%s", c, outClass(out)))
 	}
 	// 2. valid frames of every kind
-	per := r.Pick(60, 2500)
+	per := r.Pick(60, 1200)
 	for _, kind := range p2pKinds {
 		n := per
 		if kind == "block" || kind == "tx" || kind == "headers" {
